@@ -291,7 +291,8 @@ def node_json(o, index, canon):
             raise RuntimeError(f"presence invariant of the model broken for {name}")
     return {"typeId": hx(o.__xpmtype__.identifier.name), "cls": hx(cls_name(o, canon)), "args": args,
             "task": None if x.task is None else index.get(id(x.task), -1), "meta": x.meta, "sealed": bool(x._sealed),
-            "pre": [index.get(id(p), -1) for p in x.pre_tasks], "init": [index.get(id(p), -1) for p in x.init_tasks]}
+            "pre": [index.get(id(p), -1) for p in x.pre_tasks], "init": [index.get(id(p), -1) for p in x.init_tasks],
+            "tags": [[hx(k), model_val(v, index, canon)] for k, v in x._tags.items()]}
 
 
 def lib_line(mod, lib, canon):
@@ -387,6 +388,7 @@ def loaded_json(objects, defs, idmap, canon):
     for d in defs:
         o = objects[d["id"]]
         nj = node_json(o, lindex, canon)
+        nj.pop("tags", None)        # tags are not part of a definition: they travel in the "tags" member of params.json
         nj["id"] = idmap.get(d["id"], -1)
         out.append(nj)
     return out
@@ -659,6 +661,10 @@ def run_c12(mod, lib, case, root, canon, datadir):
             except (Exception, RecursionError) as e:
                 mon("serialize-raises:" + err_kind(e), f"save raised {type(e).__name__}: {str(e)[:200]}", {"entry": "save"})
                 return rec
+            bad = modified_sources()
+            if bad:
+                mon("save-modifies-source", f"save modified (or removed) the data file(s) it was given: {[canon.path(b) for b in bad]}", {"entry": "save"})
+                make_data_files(datadir)
             has_data = '"path.serialized"' in (sd / "definition.json").read_text()
             rec["stats"]["save_has_data"] = has_data
             new = None
@@ -677,13 +683,18 @@ def run_c12(mod, lib, case, root, canon, datadir):
                 x, y = Path(x), Path(y)
                 if not str(y).startswith(str(sd)):
                     raise Differ("data", f"{at}: loaded data path {canon.path(str(y))} is not inside the save directory")
-                if not y.is_file() or y.read_bytes() != x.read_bytes():
-                    raise Differ("data", f"{at}: the file restored for {canon.path(str(x))} does not hold its content")
+                if not y.is_file() or y.read_bytes() != expected_bytes(x):
+                    raise Differ("data", f"{at}: the file restored for {canon.path(str(x))} ({canon.path(str(y))}) does not hold its content")
             if new is not None:
                 for k, w in compare_reloaded(val, new, data_eq=data_eq):
                     mon("save-data-collision" if k == "data" else classify_reload_diff(k), f"save -> load: {w}", {"entry": "save"})
         finally:
             shutil.rmtree(sd, ignore_errors=True)
+
+    # --- entry point 3, compared with the model: relative names, copied files, relocated paths (and a second save of the loaded value)
+    if case.get("save"):
+        val = rootobj if vs is None else cfgbuild.real_val(mod, vs, {i: o for i, o in enumerate(objs)})
+        save_route(rec, val, index, idmap, canon, datadir, case.get("gen2"))
 
     # --- second generation: the *loaded* graph is written again and loaded again (same ids in the model)
     if case.get("gen2"):
@@ -739,13 +750,17 @@ def run_c12(mod, lib, case, root, canon, datadir):
                         sd = Path(tempfile.mkdtemp(prefix="gen-", dir=str(datadir.parent)))
                         dirs.append(sd)
                         serialization.save(cur, sd)
+                        bad = modified_sources()
+                        if bad:
+                            mon("save-modifies-source", f"{label}: save modified the data file(s) it was given: {[canon.path(b) for b in bad]}", {"entry": "routes"})
+                            make_data_files(datadir)
                         cur = new = serialization.load(sd)
                 except (Exception, RecursionError) as e:
                     mon("reload-raises:" + err_kind(e), f"{label} raised {type(e).__name__}: {str(e)[:200]}", {"entry": "routes"})
                     break
 
                 def data_same(x, y, at):
-                    if not Path(y).is_file() or Path(y).read_bytes() != Path(x).read_bytes():
+                    if not Path(y).is_file() or Path(y).read_bytes() != expected_bytes(x):
                         raise Differ("data", f"{at}: the file restored for {canon.path(str(x))} does not hold its content")
                 diffs = compare_reloaded(rootobj, new, data_eq=data_same)
                 for k, w in diffs:
@@ -811,8 +826,138 @@ def run_c12(mod, lib, case, root, canon, datadir):
                 mon("job-side:body-not-run", "run() did not execute the task body", {"entry": "job"})
             elif seen[-1] != want:
                 mon("job-side:tags", f"the task body observed tags {seen[-1]} instead of {want}", {"entry": "job"})
+            if seen and isinstance(seen[-1], dict):
+                # what the task code observes as `__tags__`, compared with the model (collectTags -> "tags" member -> job process)
+                rec["lines"].append({"op": "graph", "nodes": [node_json(o, index, canon) for o in objs]})
+                rec["impl"].append({"ok": True})
+                rec["lines"].append({"op": "tags", "root": r})
+                rec["impl"].append({"tags": [[hx(k), model_val(v, {}, canon)] for k, v in seen[-1].items()]})
         rec["stats"]["job"] = "task" if is_task else "config"
     return rec
+
+
+# ----------------------------------------------------------------- save / load with data files: correspondence (model: Model/SerialData.lean)
+
+# data files: name relative to the data directory -> content id; files with the same base name in different directories
+# hold different contents (a copy named after the file rather than after the parameter makes them collide)
+DATA_FILES = {**{f"f{i}.bin": i + 1 for i in range(8)}, "q/model.bin": 9, "d/model.bin": 10, "q/weights.pt": 11, "d/weights.pt": 12}
+DATA_FS = [[hx(f"{DATA_TAG}/{name}"), cid] for name, cid in DATA_FILES.items()]
+EXPECTED = {}        # absolute path of a data file -> the bytes it was created with
+
+
+def data_bytes(name):
+    return f"content of data file {name}\n".encode() * DATA_FILES[name]
+
+
+def make_data_files(datadir):
+    for name in DATA_FILES:
+        p = datadir / name
+        p.parent.mkdir(parents=True, exist_ok=True)
+        p.write_bytes(data_bytes(name))
+        EXPECTED[str(p)] = data_bytes(name)
+
+
+def expected_bytes(x):
+    """the bytes a data file was created with (NOT what the file holds now: a save may have written through a hard link)"""
+    b = EXPECTED.get(str(x))
+    return Path(x).read_bytes() if b is None else b
+
+
+def modified_sources():
+    return sorted(p for p, b in EXPECTED.items() if not Path(p).is_file() or Path(p).read_bytes() != b)
+
+
+def content_id(b):
+    """content id of a data file made by make_data_files(), 0 for anything else"""
+    for name, cid in DATA_FILES.items():
+        if b == data_bytes(name):
+            return cid
+    return 0
+
+
+def dir_listing(sd):
+    return [[hx(p.relative_to(sd).as_posix()), content_id(p.read_bytes())]
+            for p in sorted(sd.rglob("*")) if p.is_file() and p.name != "definition.json"]
+
+
+def load_capturing(fn):
+    """fn() with the objects dictionary built by `ConfigInformation.load_objects` during the call captured"""
+    from experimaestro.core.objects import ConfigInformation
+    orig = ConfigInformation.__dict__["load_objects"]
+    seen = []
+
+    def wrapper(*a, **kw):
+        res = orig.__func__(*a, **kw)
+        seen.append((a[0] if a else kw.get("definitions"), res))
+        return res
+
+    ConfigInformation.load_objects = staticmethod(wrapper)
+    try:
+        out = fn()
+    finally:
+        ConfigInformation.load_objects = orig
+    return out, (seen[-1] if seen else (None, None))
+
+
+def save_route(rec, val, index, idmap, canon, datadir, gen2):
+    """`serialization.save(val, dir)` / `serialization.load(dir)` (and once more into a second directory) described for the model:
+    definition list with the relative names, files of the directory with their content ids, loaded objects with the relocated
+    paths.  Returns False when the implementation raised before anything comparable was produced."""
+    from experimaestro.core import serialization
+    sd = Path(tempfile.mkdtemp(prefix="savec-", dir=str(datadir.parent)))
+    sd2 = Path(tempfile.mkdtemp(prefix="savec2-", dir=str(datadir.parent)))
+    canon.repl[0:0] = [(str(sd2), "/XVSAVE2"), (str(sd), "/XVSAVE")]
+    line = {"op": "save", "v": model_val(val, index, canon), "fs": DATA_FS, "base": hx("/XVSAVE"), "base2": hx("/XVSAVE2"), "gen2": bool(gen2)}
+    try:
+        def described(val, sd, idmap):
+            serialization.save(val, sd)
+            content = json.loads((sd / "definition.json").read_text())
+            # (the identifier member is compared by the `serialize` / `generation2` lines of the same case)
+            out = {"defs": [{k: v for k, v in d.items() if k != "identifier"} for d in canon_defs(content["objects"], idmap, canon)], "data": canon_j(content["data"], idmap, canon), "dir": dir_listing(sd)}
+            return content, out
+
+        def loaded(sd, content, idmap):
+            new, (_, objects) = load_capturing(lambda: serialization.load(sd))
+            if objects is None:
+                raise RuntimeError("serialization.load did not go through ConfigInformation.load_objects")
+            lindex = {id(o): idmap.get(k, -1) for k, o in objects.items()}
+            return new, objects, {"objs": loaded_json(objects, content["objects"], idmap, canon), "value": model_val(new, lindex, canon)}
+
+        try:
+            content, out = described(val, sd, idmap)
+        except Exception as e:
+            rec["stats"]["save_route"] = "save-raises:" + err_kind(e)
+            return False
+        try:
+            new, objects, lo = loaded(sd, content, idmap)
+        except Exception as e:
+            out["load"] = {"err": err_kind(e)}
+            if gen2:
+                out = {"err": err_kind(e)}
+            rec["lines"].append(line)
+            rec["impl"].append(out)
+            return True
+        out["objs"] = lo["objs"]
+        if not gen2:
+            out["value"] = lo["value"]
+        else:
+            idmap1 = {id(o): idmap.get(k, -1) for k, o in objects.items()}
+            try:
+                content2, out2 = described(new, sd2, idmap1)
+                _, _, lo2 = loaded(sd2, content2, idmap1)
+                out2.update(lo2)
+                out["gen2"] = out2
+            except Exception as e:
+                out = {"err": err_kind(e)}
+        rec["lines"].append(line)
+        rec["impl"].append(out)
+        rec["stats"]["save_route"] = "gen2" if gen2 else "gen1"
+        return True
+    finally:
+        if modified_sources():
+            make_data_files(datadir)
+        shutil.rmtree(sd, ignore_errors=True)
+        shutil.rmtree(sd2, ignore_errors=True)
 
 
 # ----------------------------------------------------------------- C13
@@ -1520,8 +1665,7 @@ def main():
     root = Path(tempfile.mkdtemp(prefix="xvser-"))
     datadir = root / "data"
     datadir.mkdir()
-    for i in range(8):
-        (datadir / f"f{i}.bin").write_bytes(f"content of data file {i}\n".encode() * (i + 1))
+    make_data_files(datadir)
     out = []
     try:
         mods = [load_lib(lib, root) for lib in data["libs"]]
